@@ -236,9 +236,16 @@ func genCase(t *rapid.T) Case {
 		if gen.Range(t, "pkgdoc", 0, 2) == 0 {
 			f0.tag = fmt.Sprintf("// Package %s is generated.\n", p.name)
 		}
+		gooseOnly := gen.Chance(t, "gooseonly", 25)
+		if gooseOnly {
+			// every file of the package needs the goose tag: without -tags goose the package has no
+			// Go files at all (seeded change C17-8: a pre-check of the patterns without the tag)
+			f0.tag = "//go:build goose\n\n" + f0.tag
+			feat["package:goose-tag-only"] = true
+		}
 		files = append(files, f0)
 		selected := []*fileGen{f0}
-		if rapid.Bool().Draw(t, "plain1") {
+		if !gooseOnly && rapid.Bool().Draw(t, "plain1") {
 			f := &fileGen{name: rapid.SampledFrom([]string{"b.go", "more.go", "zz.go"}).Draw(t, "f1name")}
 			files = append(files, f)
 			selected = append(selected, f)
